@@ -151,6 +151,13 @@ func sameValD(a, b ssa.Value, d int) bool {
 			if fv, ok := x.X.(*ssa.FreeVar); ok && y.X == fv {
 				return true
 			}
+			// two loads of the same field of the same object, in a function that never
+			// stores to that field (the repo has no CSE in SSA: `loc.Length` read twice)
+			if fx, ok := x.X.(*ssa.FieldAddr); ok {
+				if fy, ok := y.X.(*ssa.FieldAddr); ok && sameValD(fx, fy, d+1) && x.Parent() == y.Parent() {
+					return !storesFieldIn(x.Parent(), fx)
+				}
+			}
 		}
 	case *ssa.Const:
 		if y, ok := b.(*ssa.Const); ok {
@@ -345,4 +352,17 @@ func instrDominates(a, b ssa.Instruction) bool {
 		return pa.i < pb.i
 	}
 	return pa.b.Dominates(pb.b)
+}
+
+// storesFieldIn: fn contains a store to the same field (of any object of that struct type).
+func storesFieldIn(fn *ssa.Function, fa *ssa.FieldAddr) bool {
+	found := false
+	eachInstr(fn, func(in ssa.Instruction) {
+		if st, ok := in.(*ssa.Store); ok {
+			if g, ok := st.Addr.(*ssa.FieldAddr); ok && g.Field == fa.Field && types.Identical(deref(g.X.Type()), deref(fa.X.Type())) {
+				found = true
+			}
+		}
+	})
+	return found
 }
